@@ -703,6 +703,9 @@ fn mutate(stage: &str, mutn: &str, mut v: Vec<u8>, rng: &mut StdRng) -> Vec<u8> 
         "stray_1" => v.extend_from_slice(&[0u8]),
         "stray_3" => v.extend_from_slice(&[0u8, 0, 1]),
         "stray_7" => v.extend_from_slice(&[0u8, 0, 0, 0, 0, 0, 2]),
+        "next_len_2p30" => v.extend_from_slice(&(1u64 << 30).to_be_bytes()),
+        "next_len_2p63" => v.extend_from_slice(&(1u64 << 63).to_be_bytes()),
+        "next_len_max" => v.extend_from_slice(&u64::MAX.to_be_bytes()),
         "len_2p32" => set_len(&mut v, 1 << 32),
         "len_2p40" => set_len(&mut v, 1 << 40),
         "len_2p61" => set_len(&mut v, 1 << 61),
